@@ -46,7 +46,7 @@ BUDGET = {
 SMALL = ["small_ragged", "small_repeats", "small_alphabet1", "small_tie_costs", "small_hyp_longer",
          "small_unequal_costs"]
 OC_CLASSES = [c for c in G.CLASSES if c != "nondyadic"] + SMALL + ["mismatch", "small_mismatch", "multi_repeat",
-                                                                     "cheap_sub_ragged"]
+                                                                     "cheap_sub_ragged", "uniform_nondyadic"]
 LOSS_CLASSES = ["ocd_uniform", "ocd_ragged", "ocd_repeats", "ocd_hyp_longer", "ocd_alphabet1", "ocd_spread",
                 "ocd_mismatch", "ocd_teacher_forced"]
 CLASSES = OC_CLASSES + LOSS_CLASSES + ["zero_dim_eos"]
@@ -116,6 +116,13 @@ def generate(rng, tier, i):
         case = G.gen_string_case(rng, tier, G.CLASSES.index(rng.choice(["ragged", "equal_costs", "unequal_costs"])),
                                  dims=(N, R, rng.randint(3, 6)))
         case["class"] = "huge_batch"
+    elif cls == "uniform_nondyadic":
+        # one common cost that binary floating point cannot hold (0.1, 0.7, 1/3): sums along different alignments of
+        # equal true cost differ in the last place
+        case = G.gen_string_case(rng, tier, G.CLASSES.index(rng.choice(["ragged", "repeats", "hyp_longer"])))
+        case["class"] = cls
+        c = rng.choice([0.1, 0.3, 0.7, 1.1, 1.0 / 3, 0.06])
+        case["costs"] = [c, c, c]
     elif cls in SMALL:
         base = cls[len("small_"):]
         case = G.gen_string_case(rng, tier, G.CLASSES.index(base), max_len=4)
@@ -369,10 +376,17 @@ def _exec_oc(case, mon):
     N = len(case["ref"])
     eos, inc = case["eos"], case["include_eos"]
     pad = case["padding"]
-    judged = G.is_dyadic(case["costs"]) and min(case["costs"]) > 0
+    c3 = case["costs"]
+    uniform = c3[0] == c3[1] == c3[2] > 0
+    judged = (uniform or G.is_dyadic(c3)) and min(c3) > 0
     judged = judged and all(pad not in col for col in case["ref"])
     if not judged:
         mon.ambiguous("non-dyadic-costs-or-padding-collides")
+    # three equal costs: which tokens keep the distance does not depend on the common value (0.1 like 1.0), so the
+    # oracle works with unit costs and needs no exact arithmetic in the common value
+    ocase = dict(case, costs=[1.0, 1.0, 1.0]) if (uniform and not G.is_dyadic(c3)) else case
+    if ocase is not case:
+        mon.cls("uniform_nondyadic_costs")
     out = _call_oc(mon, case, ref_t, hyp_t)
     if case["class"] == "zero_dim_eos":
         mon.stat("zero_dim_eos_returned")
@@ -408,7 +422,7 @@ def _exec_oc(case, mon):
             nontrivial = True
         if len(h) > len(r):
             mon.stat("hyp_longer_than_ref_pairs")
-        tab, brute, budget = _targets(mon, case, r, h, budget)
+        tab, brute, budget = _targets(mon, ocase, r, h, budget)
         last = len(h) - (1 if case["exclude_last"] else 0)
         for k in range(rows):
             entries = got[k][n]
